@@ -22,6 +22,7 @@ CHECKS = {
  "C13": ("model_checking", "Every accessor x index 0..=len+1; every (writer kind, reader kind) pair out of 8 x 6 view kinds at every index; swap for every admissible pairing of six value-handle kinds in both dispatch orders; from every reachable state.", "4/C13", T_MC),
  "C10": ("model_checking", "From every reachable (len,cap) state: reserve / reserve_exact / shrink_to with every argument 0..=L+2, shrink_to_fit, with_capacity, through erased and typed receivers, interleaved with every element-wise operation (same BFS): the inequalities of the statement, no-op = same capacity, same base pointer and no storage event, contents unchanged; a 2^16 push run with a logarithmic bound on reallocation events at every power-of-two prefix; plus a subprocess sweep of huge arguments at the usize / isize overflow boundaries.", "4/C10", T_MC + "; exhaustive argument sweep at overflow boundaries"),
  "C18": ("model_checking", "Every Heap transition of the C01/C02/C08/C10 families runs under the logging global allocator (layout table, guard zones, always-moving realloc, quarantine): after every edge at most one block per vector, none while capacity x size == 0, block size/alignment sufficient, realloc/dealloc present the recorded layout, nothing allocated after drop; a subprocess sweep sends capacity requests at the isize/usize overflow boundaries and fails if an invalid layout reaches the allocator.", "4/C18", T_MC + "; allocator event-log oracle"),
+ "C06": ("fault_enumeration", "For every (state, operation instance) of the element-wise, drain/splice and clone families: a fault-free run counts the N user-code invocations inside the library (element Drop, element Clone, replacement-iterator next), then for EVERY k in 1..=N the k-th invocation panics; separately every splice with a replacement iterator whose len() lies by -2..=+2. After catch_unwind: no double drop, every visible element alive, intact and unique, guard zones intact, a follow-up battery (typed push/insert/pop/remove, clear) behaves like Vec, vectors drop cleanly. Leaks are permitted.", "4/C06", "exhaustive fault enumeration (every k-th user-code call panics) over the model-checked transition space"),
 }
 NOT_YET = "check not built yet (see DESIGN.md implementation order)"
 
